@@ -77,6 +77,15 @@ pub trait Coll<E: LElem>: Sized {
     fn clone_c(&self) -> Self;
     fn clone_from_c(&mut self, o: &Self);
     fn retain(&mut self, salt: u64, pct: u64);
+    /// `extract_if` consumed completely; the predicate's answer to its c-th call is bit `c % 64` of
+    /// `pattern` (so it also varies between elements that cannot be told apart, e.g. zero-sized
+    /// ones). Returns (answers given, in call order, with the visited id; ids yielded).
+    fn extract_seq(&mut self, pattern: u64) -> Result<(Vec<(u64, bool)>, Vec<u64>), Bad>;
+    /// `get_many_mut` with one request for `id` and, if given, a second one for `absent` (an id that
+    /// is not stored): Some((first is Some, second is Some)), or None if the collection has no such API
+    fn get_many(&mut self, _id: u64, _absent: Option<u64>, _plan: &Plan) -> Result<Option<(bool, bool)>, Bad> {
+        Ok(None)
+    }
     /// life-cycle op: create object `kind`, advance `j`, drop or forget
     fn life(&mut self, kind: u64, j: usize, forget: bool, key: u64, plan: &Plan) -> Result<After, Bad>;
 }
@@ -204,6 +213,41 @@ impl<E: LElem> Coll<E> for TableC<E> {
     }
     fn retain(&mut self, salt: u64, pct: u64) {
         self.0.retain(|e| keep(e.id(), salt, pct));
+    }
+    fn extract_seq(&mut self, pattern: u64) -> Result<(Vec<(u64, bool)>, Vec<u64>), Bad> {
+        let mut calls: Vec<(u64, bool)> = Vec::new();
+        let mut yielded = Vec::new();
+        for e in self.0.extract_if(|e| {
+            let ans = (pattern >> (calls.len() % 64)) & 1 == 1;
+            calls.push((e.id(), ans));
+            ans
+        }) {
+            if !e.verify() {
+                bad!("C02", "extracted-element-garbage", "HashTable::extract_if yielded garbage");
+            }
+            yielded.push(e.id());
+        }
+        Ok((calls, yielded))
+    }
+    fn get_many(&mut self, id: u64, absent: Option<u64>, plan: &Plan) -> Result<Option<(bool, bool)>, Bad> {
+        let d = self.dump();
+        Ok(Some(match absent {
+            None => {
+                let [a] = self.0.get_many_mut([plan.hash(id)], |_, e| e.id() == id);
+                if let Some(e) = &a {
+                    check_elem(&**e, &d, "HashTable::get_many_mut item")?;
+                }
+                (a.is_some(), false)
+            }
+            Some(x) => {
+                let ids = [id, x];
+                let [a, b] = self.0.get_many_mut([plan.hash(id), plan.hash(x)], |i, e| e.id() == ids[i]);
+                if let Some(e) = &a {
+                    check_elem(&**e, &d, "HashTable::get_many_mut item")?;
+                }
+                (a.is_some(), b.is_some())
+            }
+        }))
     }
     fn life(&mut self, kind: u64, j: usize, forget: bool, key: u64, plan: &Plan) -> Result<After, Bad> {
         let d = self.dump();
@@ -390,6 +434,21 @@ impl<E: LElem> Coll<E> for SetC<E> {
     }
     fn retain(&mut self, salt: u64, pct: u64) {
         self.0.retain(|e| keep(e.id(), salt, pct));
+    }
+    fn extract_seq(&mut self, pattern: u64) -> Result<(Vec<(u64, bool)>, Vec<u64>), Bad> {
+        let mut calls: Vec<(u64, bool)> = Vec::new();
+        let mut yielded = Vec::new();
+        for e in self.0.extract_if(|e| {
+            let ans = (pattern >> (calls.len() % 64)) & 1 == 1;
+            calls.push((e.id(), ans));
+            ans
+        }) {
+            if !e.verify() {
+                bad!("C02", "extracted-element-garbage", "HashSet::extract_if yielded garbage");
+            }
+            yielded.push(e.id());
+        }
+        Ok((calls, yielded))
     }
     fn life(&mut self, kind: u64, j: usize, forget: bool, key: u64, _plan: &Plan) -> Result<After, Bad> {
         let d = self.dump();
@@ -583,6 +642,42 @@ impl<E: LElem> Coll<E> for MapC<E> {
     }
     fn retain(&mut self, salt: u64, pct: u64) {
         self.0.retain(|k, _| keep(k.id(), salt, pct));
+    }
+    fn extract_seq(&mut self, pattern: u64) -> Result<(Vec<(u64, bool)>, Vec<u64>), Bad> {
+        let mut calls: Vec<(u64, bool)> = Vec::new();
+        let mut yielded = Vec::new();
+        for (k, v) in self.0.extract_if(|k, _| {
+            let ans = (pattern >> (calls.len() % 64)) & 1 == 1;
+            calls.push((k.id(), ans));
+            ans
+        }) {
+            if !k.verify() || !v.verify() {
+                bad!("C02", "extracted-element-garbage", "HashMap::extract_if yielded garbage");
+            }
+            yielded.push(k.id());
+        }
+        Ok((calls, yielded))
+    }
+    fn get_many(&mut self, id: u64, absent: Option<u64>, _plan: &Plan) -> Result<Option<(bool, bool)>, Bad> {
+        let d = self.dump();
+        let k = E::make(id);
+        Ok(Some(match absent {
+            None => {
+                let [a] = self.0.get_many_mut([&k]);
+                if let Some(v) = &a {
+                    check_elem(&**v, &d, "HashMap::get_many_mut value")?;
+                }
+                (a.is_some(), false)
+            }
+            Some(x) => {
+                let kx = E::make(x);
+                let [a, b] = self.0.get_many_mut([&k, &kx]);
+                if let Some(v) = &a {
+                    check_elem(&**v, &d, "HashMap::get_many_mut value")?;
+                }
+                (a.is_some(), b.is_some())
+            }
+        }))
     }
     fn life(&mut self, kind: u64, j: usize, forget: bool, key: u64, _plan: &Plan) -> Result<After, Bad> {
         let d = self.dump();
@@ -867,6 +962,22 @@ impl<'c, E: LElem, C: Coll<E>> LInterp<'c, E, C> {
                 if r != self.model.contains(&id) {
                     bad!("C02", "lookup-presence", "{} lookup({id}) = {r}", C::KIND);
                 }
+                // get_many_mut (map, table): one request, then the same plus an absent id. With duplicates
+                // of `id` stored (tables) one request still resolves to one entry.
+                let absent = (0..E::id_space().min(64)).map(|i| (id + 1 + i) % E::id_space().max(1)).find(|x| *x != id && !self.model.contains(x));
+                let want = self.model.contains(&id);
+                if let Some((one, _)) = self.coll.get_many(id, None, &self.plan)? {
+                    if one != want {
+                        bad!("C15", "get_many_mut-presence", "{} of {}: get_many_mut([{id}]) is Some={one}, stored={want}", C::KIND, E::name());
+                    }
+                    if let Some(x) = absent {
+                        if let Some((first, second)) = self.coll.get_many(id, Some(x), &self.plan)? {
+                            if first != want || second {
+                                bad!("C15", "get_many_mut-presence", "{} of {}: get_many_mut([{id}, {x}]) is (Some={first}, Some={second}), stored=({want}, false)", C::KIND, E::name());
+                            }
+                        }
+                    }
+                }
             }
             ops::LIFE => {
                 let total = self.coll.len();
@@ -959,13 +1070,21 @@ impl<'c, E: LElem, C: Coll<E>> LInterp<'c, E, C> {
             }
             ops::CLONE_SWAP => {
                 let c = self.coll.clone_c();
+                if c.len() != self.model.len() {
+                    bad!("C11", "clone-not-equal", "{} of {}: clone holds {} elements, source {}", C::KIND, E::name(), c.len(), self.model.len());
+                }
                 if a[0] % 2 == 0 {
                     self.coll = c;
                 } else {
                     let mut c = c;
+                    if c.dump().n_deleted() > 0 {
+                        self.labels |= dump::L_CLONE_FROM_DIFF;
+                    }
                     c.clone_from_c(&self.coll);
                     self.coll = c;
                 }
+                // tracked layouts: the World sees an element dropped twice, or (zero-sized tracked
+                // elements are counted) more drops than constructions if a clone skips Clone::clone
             }
             ops::FILL_TO_CAPACITY => {
                 let room = (self.coll.capacity() - self.coll.len()).min(1024);
@@ -995,6 +1114,29 @@ impl<'c, E: LElem, C: Coll<E>> LInterp<'c, E, C> {
             }
             ops::RETAIN => {
                 let (salt, pct) = (a[0], a[1] % 101);
+                if a[0] % 3 == 2 {
+                    // extract_if driven to the end with a predicate whose answers follow a bit pattern by
+                    // call index (they differ even between indistinguishable elements)
+                    let pattern = splitmix64(a[0] ^ (a[1] << 32));
+                    let before = self.model.len();
+                    let (calls, yielded) = self.coll.extract_seq(pattern)?;
+                    let expect: Vec<u64> = calls.iter().filter(|c| c.1).map(|c| c.0).collect();
+                    if calls.len() != before {
+                        bad!("C10", "extract_if-predicate-calls", "{} of {}: extract_if driven to the end called the predicate {} times for {before} elements", C::KIND, E::name(), calls.len());
+                    }
+                    if yielded != expect {
+                        bad!("C10", "extract_if-yield", "{} of {}: extract_if yielded {} elements {:?}, the predicate said true for {} {:?}", C::KIND, E::name(), yielded.len(), &yielded[..yielded.len().min(8)], expect.len(), &expect[..expect.len().min(8)]);
+                    }
+                    for id in &yielded {
+                        match self.model.iter().position(|m| m == id) {
+                            Some(i) => {
+                                self.model.swap_remove(i);
+                            }
+                            None => bad!("C10", "extract_if-yield", "{} of {}: extract_if yielded id {id} which was not stored (any more)", C::KIND, E::name()),
+                        }
+                    }
+                    return Ok(());
+                }
                 self.coll.retain(salt, pct);
                 self.model.retain(|id| keep(*id, salt, pct));
             }
@@ -1216,6 +1358,8 @@ impl<'c, E: LElem, C: Coll<E>> LInterp<'c, E, C> {
 fn run_coll<E: LElem, C: Coll<E>>(case: &Case) -> Outcome {
     world::install_panic_hook();
     world::reset();
+    // an allocator may hand out blocks longer than requested (and say so): `slack` extra bytes
+    alloc::with_ledger(|l| l.slack = case.h("slack") as usize);
     let mut it: LInterp<'_, E, C> = LInterp::new(case);
     let mut violation = None;
     let mut steps = 0;
